@@ -88,7 +88,7 @@ def bad_sargs(rng):
     return ('bad', {})
 
 class Runner:
-    def __init__(self, seed, mod=None, weights=None, max_len=12, timeout=2.0, thorough=False):
+    def __init__(self, seed, mod=None, weights=None, max_len=12, timeout=5.0, thorough=False):
         self.rng = random.Random(seed)
         self.mod = mod or load_impl()
         self.A = self.mod.AnsiString
@@ -192,6 +192,8 @@ class Runner:
         return self.rng.choice(self.live)
 
     def add_live(self, x):
+        if len(x._s) > 150:
+            return          # keep the work per operation small: a slow operation is not a hanging one
         self.live.append(x)
         if len(self.live) > 6:
             del self.live[self.rng.randrange(len(self.live) - 1)]
@@ -1189,6 +1191,9 @@ class Runner:
             new = ('S', self.S(self.pick()))
         count = rng.choice([-1, -1, 0, 1, 2])
         inplace = rng.random() < 0.3
+        nlen = len(new[1]) if new[0] == 's' else len(self.as_astr(new)._s)
+        if (len(t) + 1) * max(1, nlen) > 600:
+            new = ('s', rng.choice(['', 'x', 'xy']))      # bounded work (see add_live)
         ids = P.InIds()
         if new[0] == 's':
             inp = self._inp = P.line('replace', P.e_astr(x, ids), P.e_str(old), [0], P.e_str(new[1]), P.e_int(count))
@@ -1571,6 +1576,7 @@ class Runner:
                 # table that only fails when replayed)
                 self.op__tmp = lambda: self.do_tostr(w, None, True, self.rng.random() < 0.3, self.rng.random() < 0.7)
                 self.run_op('_tmp')
+            self.live = [v for v in self.live if len(v._s) <= 300] or self.live[:1]
             for v in self.live:
                 self.stats['text_len'][len(v._s)] = self.stats['text_len'].get(len(v._s), 0) + 1
         for k, st in enumerate(self.steps[start:]):
